@@ -41,7 +41,7 @@ class _Continue(Exception):
     pass
 
 
-_PURE_METHODS = {"join", "get", "items", "keys", "values", "upper", "lower", "encode", "decode", "replace", "split", "rsplit", "partition", "rpartition", "strip", "lstrip", "rstrip",
+_PURE_METHODS = {"__getitem__", "__contains__", "__len__", "join", "get", "items", "keys", "values", "upper", "lower", "encode", "decode", "replace", "split", "rsplit", "partition", "rpartition", "strip", "lstrip", "rstrip",
                  "startswith", "endswith", "isdigit", "isnumeric", "find", "rfind", "count", "index", "hex", "format", "zfill", "removeprefix", "removesuffix", "copy",
                  "append", "extend", "update", "pop", "insert", "clear", "setdefault", "isalpha", "isupper", "islower", "title"}
 def _chain_from_iterable(x):
@@ -758,6 +758,8 @@ class Interp:
                 recv_ = self.ev(e.func.value, env, depth)
             except _Unknown:
                 recv_ = None
+            if (recv_ is None or isinstance(recv_, (int, float))) and not hasattr(recv_, e.func.attr):
+                raise AttributeError(e.func.attr)  # e.g. (7).lower(): what the interpreted code would raise
             if isinstance(recv_, (str, bytes, list, tuple, dict)) and not isinstance(recv_, bool):
                 args = [self.ev(a, env, depth) for a in e.args]
                 if e.func.attr in ("append", "extend", "update", "pop", "insert", "clear", "setdefault") or all(not isinstance(a, (Obj, Stream, Bound)) for a in args):
